@@ -5,11 +5,13 @@
 package helper
 
 //@ func ErrToStrPtr
+//@   safety
 //@   ensures [nilness] (res == nil) <==> (err == nil)
 //@   ensures [fresh] res != nil ==> fresh(res)
 //@   modifies nothing
 
 //@ func StrPtrToErr
+//@   safety
 //@   ensures [nil] s == nil ==> res == nil
 //@   ensures [empty] s != nil && *s == "" ==> res == nil
 //@   ensures [nonempty] s != nil && *s != "" ==> res != nil
